@@ -108,6 +108,7 @@ pub open spec fn asm_inv(c: &Context, o: &Output) -> bool {
 
 //@action src/lib/preprocessor/preprocessor.rs call = quote_call, name_string as as_call
 //@contract
+//@fmttoks
     requires vstd::std_specs::hash::obeys_key_model::<String>(), old(context).mapper.v_next() < usize::MAX,
     ensures
         // calling something that is not a procedure is refused and nothing is emitted
@@ -117,10 +118,12 @@ pub open spec fn asm_inv(c: &Context, o: &Output) -> bool {
             && final(context).mapper.v_next() == old(context).mapper.v_next() + 1,
         final(out).data@ == old(out).data@, final(context).fn_map@ == old(context).fn_map@, final(context).label_map@ == old(context).label_map@,
         asm_inv(old(context), old(out)) ==> asm_inv(final(context), final(out)), //# C08,C16 asm.output_invariant_preserved
+        r.is_ok() ==> toks(final(out).code@.last()@) == @TOKS(L:call P:n), //# C08,C11 asm.emitted_line_is_the_source_instruction_in_the_interpreters_syntax
 //@end
 
 //@action src/lib/preprocessor/preprocessor.rs int = quote_int, u_byte_num as as_int
 //@contract
+//@fmttoks
     requires old(context).mapper.v_next() < usize::MAX,
     ensures
         // only the three supported interrupts are accepted
@@ -128,6 +131,7 @@ pub open spec fn asm_inv(c: &Context, o: &Output) -> bool {
         !(n == 3 || n == 0x10 || n == 0x21) ==> r.is_err() && final(out).code@ == old(out).code@,
         final(out).data@ == old(out).data@,
         asm_inv(old(context), old(out)) ==> asm_inv(final(context), final(out)), //# C08,C16 asm.output_invariant_preserved
+        r.is_ok() ==> toks(final(out).code@.last()@) == @TOKS(L:int N:n), //# C18,C11 asm.emitted_line_is_the_source_instruction_in_the_interpreters_syntax
 //@end
 
 //@action src/lib/preprocessor/preprocessor.rs offset = quote_offset, name_string as as_offset
@@ -180,6 +184,7 @@ pub open spec fn asm_inv(c: &Context, o: &Output) -> bool {
 
 //@action src/lib/preprocessor/preprocessor.rs jmps_loops = quote_jmps_loops, name_string as as_jmps_loops
 //@contract
+//@fmttoks
     requires vstd::std_specs::hash::obeys_key_model::<String>(), old(context).mapper.v_next() < usize::MAX,
     ensures
         // a jump to a data label is refused and nothing is emitted; otherwise one instruction is emitted
@@ -189,12 +194,14 @@ pub open spec fn asm_inv(c: &Context, o: &Output) -> bool {
             && final(out).code@.subrange(0, old(out).code@.len() as int) == old(out).code@,
         final(out).data@ == old(out).data@, final(context).label_map@ == old(context).label_map@, final(context).fn_map@ == old(context).fn_map@,
         asm_inv(old(context), old(out)) ==> asm_inv(final(context), final(out)), //# C08,C16 asm.output_invariant_preserved
+        r.is_ok() ==> toks(final(out).code@.last()@) == @TOKS(P:q P:n), //# C06,C08,C11 asm.emitted_line_is_the_source_instruction_in_the_interpreters_syntax
 //@end
 
 
 // ------------------------------------------------------------------ data directives (C12)
 //@action src/lib/preprocessor/preprocessor.rs db_directive = label, quote_db, s_byte_num as as_db_value
 //@contract
+//@fmttoks
     requires vstd::std_specs::hash::obeys_key_model::<String>(),
     ensures
         // the label denotes the offset of the first byte of the definition (the counter BEFORE it is advanced),
@@ -213,10 +220,12 @@ pub open spec fn asm_inv(c: &Context, o: &Output) -> bool {
             && final(out).data@ == old(out).data@ && final(context).label_map@ == old(context).label_map@,
         final(out).code@ == old(out).code@, final(context).fn_map@ == old(context).fn_map@,
         asm_inv(old(context), old(out)) ==> asm_inv(final(context), final(out)), //# C08,C16 asm.output_invariant_preserved
+        r.is_ok() ==> toks(final(out).data@.last()@) == @TOKS(L:db N:n), //# C12,C11 asm.emitted_line_is_the_directive_in_the_loaders_syntax
 //@end
 
 //@action src/lib/preprocessor/preprocessor.rs db_directive = label, quote_db, "[", u_word_num, "]" as as_db_zeros
 //@contract
+//@fmttoks
     requires vstd::std_specs::hash::obeys_key_model::<String>(),
     ensures
         // the label denotes the offset of the first byte of the definition (the counter BEFORE it is advanced),
@@ -235,10 +244,12 @@ pub open spec fn asm_inv(c: &Context, o: &Output) -> bool {
             && final(out).data@ == old(out).data@ && final(context).label_map@ == old(context).label_map@,
         final(out).code@ == old(out).code@, final(context).fn_map@ == old(context).fn_map@,
         asm_inv(old(context), old(out)) ==> asm_inv(final(context), final(out)), //# C08,C16 asm.output_invariant_preserved
+        r.is_ok() ==> toks(final(out).data@.last()@) == @TOKS(L:db L:[ N:n L:]), //# C12,C11 asm.emitted_line_is_the_directive_in_the_loaders_syntax
 //@end
 
 //@action src/lib/preprocessor/preprocessor.rs db_directive = label, quote_db, "[", s_byte_num, ",", u_word_num, "]" as as_db_fill
 //@contract
+//@fmttoks
     requires vstd::std_specs::hash::obeys_key_model::<String>(),
     ensures
         // the label denotes the offset of the first byte of the definition (the counter BEFORE it is advanced),
@@ -257,10 +268,12 @@ pub open spec fn asm_inv(c: &Context, o: &Output) -> bool {
             && final(out).data@ == old(out).data@ && final(context).label_map@ == old(context).label_map@,
         final(out).code@ == old(out).code@, final(context).fn_map@ == old(context).fn_map@,
         asm_inv(old(context), old(out)) ==> asm_inv(final(context), final(out)), //# C08,C16 asm.output_invariant_preserved
+        r.is_ok() ==> toks(final(out).data@.last()@) == @TOKS(L:db L:[ N:v L:, N:n L:]), //# C12,C11 asm.emitted_line_is_the_directive_in_the_loaders_syntax
 //@end
 
 //@action src/lib/preprocessor/preprocessor.rs dw_directive = label, quote_dw, s_word_num as as_dw_value
 //@contract
+//@fmttoks
     requires vstd::std_specs::hash::obeys_key_model::<String>(),
     ensures
         // the label denotes the offset of the first byte of the definition (the counter BEFORE it is advanced),
@@ -279,10 +292,12 @@ pub open spec fn asm_inv(c: &Context, o: &Output) -> bool {
             && final(out).data@ == old(out).data@ && final(context).label_map@ == old(context).label_map@,
         final(out).code@ == old(out).code@, final(context).fn_map@ == old(context).fn_map@,
         asm_inv(old(context), old(out)) ==> asm_inv(final(context), final(out)), //# C08,C16 asm.output_invariant_preserved
+        r.is_ok() ==> toks(final(out).data@.last()@) == @TOKS(L:dw N:n), //# C12,C11 asm.emitted_line_is_the_directive_in_the_loaders_syntax
 //@end
 
 //@action src/lib/preprocessor/preprocessor.rs dw_directive = label, quote_dw, "[", u_word_num, "]" as as_dw_zeros
 //@contract
+//@fmttoks
     requires vstd::std_specs::hash::obeys_key_model::<String>(),
     ensures
         // the label denotes the offset of the first byte of the definition (the counter BEFORE it is advanced),
@@ -301,10 +316,12 @@ pub open spec fn asm_inv(c: &Context, o: &Output) -> bool {
             && final(out).data@ == old(out).data@ && final(context).label_map@ == old(context).label_map@,
         final(out).code@ == old(out).code@, final(context).fn_map@ == old(context).fn_map@,
         asm_inv(old(context), old(out)) ==> asm_inv(final(context), final(out)), //# C08,C16 asm.output_invariant_preserved
+        r.is_ok() ==> toks(final(out).data@.last()@) == @TOKS(L:dw L:[ N:n L:]), //# C12,C11 asm.emitted_line_is_the_directive_in_the_loaders_syntax
 //@end
 
 //@action src/lib/preprocessor/preprocessor.rs dw_directive = label, quote_dw, "[", s_word_num, ",", u_word_num, "]" as as_dw_fill
 //@contract
+//@fmttoks
     requires vstd::std_specs::hash::obeys_key_model::<String>(),
     ensures
         // the label denotes the offset of the first byte of the definition (the counter BEFORE it is advanced),
@@ -323,10 +340,12 @@ pub open spec fn asm_inv(c: &Context, o: &Output) -> bool {
             && final(out).data@ == old(out).data@ && final(context).label_map@ == old(context).label_map@,
         final(out).code@ == old(out).code@, final(context).fn_map@ == old(context).fn_map@,
         asm_inv(old(context), old(out)) ==> asm_inv(final(context), final(out)), //# C08,C16 asm.output_invariant_preserved
+        r.is_ok() ==> toks(final(out).data@.last()@) == @TOKS(L:dw L:[ N:v L:, N:n L:]), //# C12,C11 asm.emitted_line_is_the_directive_in_the_loaders_syntax
 //@end
 
 //@action src/lib/preprocessor/preprocessor.rs db_directive = label, quote_db, r#"\"[[:print:]]*\""# as as_db_string
 //@contract
+//@fmttoks
 //@strslice
     requires vstd::std_specs::hash::obeys_key_model::<String>(),
         q.is_ascii() && q@.len() >= 2,     // the token's regex: printable ASCII between two quotes
@@ -347,10 +366,12 @@ pub open spec fn asm_inv(c: &Context, o: &Output) -> bool {
             && final(out).data@ == old(out).data@ && final(context).label_map@ == old(context).label_map@,
         final(out).code@ == old(out).code@, final(context).fn_map@ == old(context).fn_map@,
         asm_inv(old(context), old(out)) ==> asm_inv(final(context), final(out)), //# C08,C16 asm.output_invariant_preserved
+        r.is_ok() ==> toks(final(out).data@.last()@) == @TOKS(L:db P:q), //# C12,C11 asm.emitted_line_is_the_directive_in_the_loaders_syntax
 //@end
 
 //@action src/lib/preprocessor/preprocessor.rs dw_directive = label, quote_dw, r#"\"[[:print:]]*\""# as as_dw_string
 //@contract
+//@fmttoks
 //@strslice
     requires vstd::std_specs::hash::obeys_key_model::<String>(),
         q.is_ascii() && q@.len() >= 2,     // the token's regex: printable ASCII between two quotes
@@ -371,13 +392,16 @@ pub open spec fn asm_inv(c: &Context, o: &Output) -> bool {
             && final(out).data@ == old(out).data@ && final(context).label_map@ == old(context).label_map@,
         final(out).code@ == old(out).code@, final(context).fn_map@ == old(context).fn_map@,
         asm_inv(old(context), old(out)) ==> asm_inv(final(context), final(out)), //# C08,C16 asm.output_invariant_preserved
+        r.is_ok() ==> toks(final(out).data@.last()@) == @TOKS(L:dw P:q), //# C12,C11 asm.emitted_line_is_the_directive_in_the_loaders_syntax
 //@end
 
 //@action src/lib/preprocessor/preprocessor.rs set_directive = quote_set, u_word_num as as_set
 //@contract
+//@fmttoks
     ensures final(context).data_counter == 0, final(out).data@.len() == old(out).data@.len() + 1,
         final(out).code@ == old(out).code@, final(context).label_map@ == old(context).label_map@,
         asm_inv(old(context), old(out)) ==> asm_inv(final(context), final(out)), //# C08,C16 asm.output_invariant_preserved
+        toks(final(out).data@.last()@) == @TOKS(L:set N:n), //# C12,C11 asm.emitted_line_is_the_directive_in_the_loaders_syntax
 //@end
 
 // an OFFSET used as a byte constant must fit in a byte
